@@ -99,6 +99,24 @@ def stmtOf : Json → Except String Stmt
     let cols ← cols.toList.mapM (fun c => match c with | .arr #[.str n, .str t] => pure (n, t) | _ => throw "bad column def")
     pure (.createTable (← strs tgt) (← bool ine) cols)
   | .arr #[.str "create_table_like", tgt, src] => do pure (.createTableLike (← strs tgt) (← strs src))
+  | .arr #[.str "update", tgt, al, .arr sets, .arr frm, wh] => do
+    let sets ← sets.toList.mapM (fun x => match x with
+      | .arr #[t, e] => do pure (SetClause.mk (← strs t) (← exprOf e)) | _ => throw "bad set clause")
+    pure (.update (← strs tgt) (← optStr al) sets (← frm.toList.mapM fromExprOf) (← optExprOf wh))
+  | .arr #[.str "merge", tgt, ta, src, on, .arr ups, .arr ins] => do
+    let src ← match src with
+      | .arr #[.str "table", ps, a] => do pure (MergeSource.table (← strs ps) (← optStr a))
+      | .arr #[.str "derived", q, a] => do pure (MergeSource.derived (← queryOf q) (← optStr a))
+      | _ => throw "bad merge source"
+    let ups ← ups.toList.mapM (fun u => match u with
+      | .arr sets => sets.toList.mapM (fun x => match x with
+          | .arr #[t, e] => do pure (SetClause.mk (← strs t) (← exprOf e)) | _ => throw "bad set clause")
+      | _ => throw "bad update clause")
+    let ins ← ins.toList.mapM (fun i => match i with
+      | .arr #[.arr cols, .arr vals] => do pure (MergeInsert.mk (← cols.toList.mapM strs) (← vals.toList.mapM exprOf))
+      | _ => throw "bad insert clause")
+    pure (.merge (← strs tgt) (← optStr ta) src (← exprOf on) ups ins)
+  | .arr #[.str "copy", tgt, .str path] => do pure (.copy (← strs tgt) path)
   | .arr #[.str "drop", v, ie, tgt] => do pure (.drop (← bool v) (← bool ie) (← strs tgt))
   | .arr #[.str "alter_rename", x, y] => do pure (.alterRename (← strs x) (← strs y))
   | .arr #[.str "rename_table", .arr ps] => do
